@@ -377,8 +377,12 @@ fn render_comments(cs: &[CommentDoc], indent: i32, opts: &RenderOpts, state: &mu
             state.pending_indent = Some(pad_width);
             state.swallow_next_break = true;
         } else if nls > 0 {
+            // A multi-line block comment leaves the cursor after its last line, not at
+            // column 0: text that follows on the same line (and every anchor recorded for
+            // it) starts there.
             state.current_line += nls;
-            state.col = 0;
+            let last = c.text.rsplit('\n').next().unwrap_or("");
+            state.col = last.chars().count();
         } else {
             state.col += c.text.chars().count();
         }
